@@ -56,6 +56,11 @@ func (tree *ParserT) parseString(qStart, qEnd rune, exec bool) ([]rune, error) {
 			}
 			value = append(value, v...)
 
+		case r == '\\' && qStart == '"' && tree.charPos+1 < len(tree.expression):
+			// an escaped character (eg \") does not end a double quoted string
+			value = append(value, r, tree.expression[tree.charPos+1])
+			tree.charPos++
+
 		case r == '\n':
 			value = append(value, r)
 			tree.crLf()
